@@ -49,6 +49,8 @@ def coerce(x):
 
 def binop(op, a, b):
     if not (isinstance(a, (Rat, Vec)) or isinstance(b, (Rat, Vec))):
+        if isinstance(op, ast.Div) and all(isinstance(x, (int, Fraction)) and not isinstance(x, bool) for x in (a, b)) and b != 0:
+            return c(Fraction(a) / Fraction(b))  # true division of whole numbers stays exact
         return NO_MATCH
     a, b = coerce(a), coerce(b)
     if a is None or b is None:
